@@ -50,7 +50,7 @@ def run(prop, tier, seed, cfg, log_dir):
     cov = {k: r.get(k) for k in ("obligations", "discharged", "queries", "programs", "distinct_nontrivial",
                                  "disagreements_checked", "solver_seconds", "solver", "samples", "distinct_plans",
                                  "plan_kinds", "shape_profile_matrix", "model_vs_real_executor_checks", "bounds",
-                                 "model_sha256", "wall_s", "extra")}
+                                 "model_sha256", "wall_s", "extra", "second_solver_cvc5")}
     if not keep_work():
         shutil.rmtree(work, ignore_errors=True)
     return {"error": err, "violations": vio, "coverage": cov, "assumptions": r.get("assumptions", [])}
